@@ -201,7 +201,9 @@ def histogram2d(
 
     # If no layers are defined, make a layer for counting cells
     if len(layers) == 0:
-        layers = [Layer(Array(values=np.ones_like(xvals), name="counts"))]
+        layers = [
+            Layer(Array(values=np.ones_like(xvals), name="counts"), operation="sum")
+        ]
 
     for layer in layers:
         if isinstance(layer, Array):
